@@ -451,7 +451,9 @@ func mirDirect(seed uint64, tier string, args []string, w *bufio.Writer) {
 		}
 	}
 	r := newRng(seed*7919 + 11)
-	reqs := []int{page, 2 * page, 3 * page, 5 * page, 8 * page, 1, page - 1, page + 1, 2*page + 1, 5*page - 1, 7 * page}
+	reqs := []int{page, 2 * page, 3 * page, 5 * page, 8 * page, 1, page - 1, page + 1, 2*page + 1, 5*page - 1, 7 * page,
+		// sizes above 1 MiB that are no multiple of it (where an allocator that works in huge-page units would round)
+		1<<20 + page, 1500000}
 	cycles := 150
 	if tier == "thorough" {
 		cycles = 2000
@@ -508,6 +510,12 @@ func mirDirect(seed uint64, tier string, args []string, w *bufio.Writer) {
 				break
 			}
 			probes++
+		}
+		if b.UsedSpace()+b.FreeSpace() != size || b.FreeSpace() != size {
+			fail("direct.accounting", "size %d: fresh buffer reports used %d + free %d", size, b.UsedSpace(), b.FreeSpace())
+		}
+		if c := b.Claim(size + 1); len(c) > size {
+			fail("direct.accounting", "size %d: Claim(size+1) on the empty buffer grants %d bytes", size, len(c))
 		}
 		// a claim that crosses the end of the ring is the same memory as the start of the ring
 		if size >= 2 {
